@@ -69,7 +69,62 @@ fn same_decode(a: &Result<Frame<'static>, FrameError>, b: &Result<Frame<'static>
 }
 
 /// a read and a write that fail on some other port of the same thread; whatever they leave behind must not matter
+/// A reader and a writer that PANIC inside Frame::read / Frame::write (caught here): whatever lock, cell or buffer the
+/// library holds at that moment must not be left poisoned, borrowed or half filled for later calls in this process.
+pub fn panic_inside_io() {
+    struct Boom(u8);
+    impl io::Read for Boom {
+        fn read(&mut self, buf: &mut [u8]) -> io::Result<usize> {
+            if self.0 == 0 {
+                panic!("harness: reader panics");
+            }
+            self.0 -= 1;
+            buf[0] = b':';
+            Ok(1)
+        }
+    }
+    impl io::Write for Boom {
+        fn write(&mut self, buf: &[u8]) -> io::Result<usize> {
+            if self.0 == 0 {
+                panic!("harness: writer panics");
+            }
+            self.0 -= 1;
+            Ok(buf.len().min(3))
+        }
+        fn flush(&mut self) -> io::Result<()> {
+            Ok(())
+        }
+    }
+    for k in [0u8, 2] {
+        let _ = catch(|| {
+            let mut r = Boom(k);
+            let _ = Frame::read(&mut r);
+        });
+        let _ = catch(|| {
+            let mut w = Boom(k);
+            let _ = Frame::new(Address(1), MsgType(2), Data::try_new(vec![3u8; 5]).unwrap()).write(&mut w);
+        });
+    }
+}
+
+thread_local! {
+    static POISON_TICK: std::cell::Cell<u32> = const { std::cell::Cell::new(0) };
+}
+
+/// `panic_inside_io` on every 512th call per thread (a caught panic costs microseconds)
+pub fn panic_inside_io_sometimes() {
+    let t = POISON_TICK.with(|c| {
+        let v = c.get();
+        c.set(v.wrapping_add(1));
+        v
+    });
+    if t % 512 == 0 {
+        panic_inside_io();
+    }
+}
+
 fn poison_thread() {
+    panic_inside_io_sometimes();
     let mut st = PortState::new(b":0100030".to_vec());
     st.read_script = vec![ReadStep::Serve(3), ReadStep::Error(io::ErrorKind::Other)];
     st.write_script = vec![WriteStep::Accept(4), WriteStep::Error(io::ErrorKind::BrokenPipe)];
@@ -161,6 +216,26 @@ pub fn check_read(c: &ReadCase, st: &mut Stats) -> Result<(), String> {
                 "read {reads} returned {result:?} but decoding the line {} gives {want:?}",
                 show_bytes(line)
             ));
+        }
+        // a frame that was read is written like any other frame: its canonical encoding with CRLF, whatever letter case or
+        // terminator the line it came from had
+        if let Ok(f) = &result {
+            let mut sink: Vec<u8> = vec![];
+            let mut canon = ref_encode(f.address().0, f.message_type().0, f.data());
+            canon.extend_from_slice(b"\r\n");
+            match catch(|| f.write(&mut sink)) {
+                Ok(Ok(())) if sink == canon => {}
+                Ok(Ok(())) => {
+                    return Err(format!(
+                        "the frame read from line {} was then written as {} instead of its encoding {}",
+                        show_bytes(line),
+                        show_bytes(&sink),
+                        show_bytes(&canon)
+                    ))
+                }
+                Ok(Err(e)) => return Err(format!("writing the frame just read into a Vec failed: {e}")),
+                Err(p) => return Err(format!("writing the frame just read panicked: {p}")),
+            }
         }
         if result.is_ok() {
             frames_ok += 1;
